@@ -727,6 +727,35 @@ func (x *Exec) evalGlobalInit(st *State, key string, t types.Type, init ast.Expr
 					return &Val{T: TE.MkStruct(t, fs), Typ: t}
 				}
 			}
+			// keyed struct literal: a function-typed field initialised with a function is not nil
+			v := opaque()
+			for _, el := range e.Elts {
+				kv, ok := el.(*ast.KeyValueExpr)
+				if !ok {
+					continue
+				}
+				kid, ok := kv.Key.(*ast.Ident)
+				if !ok {
+					continue
+				}
+				switch kv.Value.(type) {
+				case *ast.Ident, *ast.FuncLit, *ast.SelectorExpr:
+				default:
+					continue
+				}
+				for i := 0; i < stt.NumFields(); i++ {
+					if stt.Field(i).Name() != kid.Name {
+						continue
+					}
+					if _, isSig := stt.Field(i).Type().Underlying().(*types.Signature); isSig {
+						if id, isId := kv.Value.(*ast.Ident); isId && id.Name == "nil" {
+							continue
+						}
+						x.ctx.assumeGlobal(st, Neq(TE.Field(t, i, v.T), IntLit(0)))
+					}
+				}
+			}
+			return v
 		}
 	}
 	return opaque()
